@@ -419,8 +419,8 @@ def law_jobs(thorough):
     jobs = [("EscapeLatticeLaws", "EscapeLaws_T2.cfg", 2, 1700), ("EscapeLatticeLaws", "EscapeLaws_S2.cfg", 2, 1700),
             ("EscapeLatticeLaws", "EscapeClose_2.cfg", 2, 1700), ("EscapeLatticeOrder", "EscapeOrder_2.cfg", 2, 1700),
             ("EscapeLatticeChaotic", "EscapeChaotic_3.cfg", 1, 1700),
-            ("EscapeLatticeLaws", "EscapeLaws_P2.cfg", 4, 1700), ("EscapeLatticeLaws", "EscapeLaws_P3.cfg", 4, 1700),
-            ("EscapeLatticeLaws", "EscapeClose_3.cfg", 3, 1700), ("EscapeLatticeOrder", "EscapeOrder_3.cfg", 3, 1700)]
+            ("EscapeLatticeLaws", "EscapeLaws_P2.cfg", 2, 1700), ("EscapeLatticeLaws", "EscapeLaws_P3.cfg", 2, 1700),
+            ("EscapeLatticeLaws", "EscapeClose_3.cfg", 2, 1700), ("EscapeLatticeOrder", "EscapeOrder_3.cfg", 2, 1700)]
     return jobs
 
 
@@ -457,9 +457,10 @@ def replay(ctx):
     r = ctx.tlc_must_pass("EscapeLatticeTrace", data=data, subdir="replay", timeout=900, deadlock=False)
     fails = vlib.read_ndjson(os.path.join(r.dir, "trace_fail.ndjson"))
     ctx.traces += 1
-    for f in fails:
-        ctx.violation("replayed record (%s, program %s, function %s): %s" % (
-            kind, rec.get("prog"), rec.get("fn"), KIND_TEXT[f["kind"]]), {"record.json": rec}, key="replay|" + fp + f["kind"])
+    for f in fails:  # no new replay directory for a replay
+        what = "replayed record (%s, program %s, function %s): %s" % (kind, rec.get("prog"), rec.get("fn"), KIND_TEXT[f["kind"]])
+        ctx.violations.append({"what": what, "replay": ctx.replay})
+        print("VIOLATION property=%s replay=%s\n  reason: %s" % (ctx.prop, ctx.replay, what))
     if not fails:
         print("replay: the recorded data satisfies every check of EscapeLatticeTrace")
     ctx.finish_args = dict(exhaustive=False, evaluations=1, distinct=1, rule="one recorded case replayed")
@@ -473,6 +474,7 @@ def run(ctx):
     t_start = time.time()
     # the machine is shared: keep every JVM small (inherited by the TLC child processes)
     os.environ["JAVA_TOOL_OPTIONS"] = "-XX:ParallelGCThreads=2 -XX:CICompilerCount=2"
+    os.environ["GOMAXPROCS"] = "4"
     bins = ctx.build(["escdump"])
 
     # ---- corpus ------------------------------------------------------------------------------------
@@ -487,8 +489,7 @@ def run(ctx):
     skip_taint = {"benchmark", "stdlib", "stdlib_121", "stdlib-no-effect-constraint", "agent-example"}  # slow to load
     tnames = [d for d in tnames if d not in skip_taint]
     rnd.shuffle(tnames)
-    if not thorough:
-        tnames = tnames[:3]
+    tnames = tnames[:20 if thorough else 3]
     for d in tnames:
         progs.append(("taint/" + d, os.path.join(tdir, d), []))
     # pinned inputs of known findings are analysed on every run
@@ -496,7 +497,7 @@ def run(ctx):
     for d in sorted(os.listdir(pdir)) if os.path.isdir(pdir) else []:
         if os.path.exists(os.path.join(pdir, d, "main.go")):
             progs.append(("pinned/" + d, os.path.join(pdir, d), []))
-    ngen = 16 if thorough else 3
+    ngen = 12 if thorough else 3
     for k in range(ngen):
         src, picked = gen_program(rnd)
         gdir = os.path.join(ctx.work, "gen", "g%02d" % k)
@@ -509,8 +510,8 @@ def run(ctx):
     if only:
         progs = [x for x in progs if only in x[0]]
     perms = 20 if thorough else 3
-    caps = dict(maxnodes=48 if thorough else 36, maxmerge=500 if thorough else 110, maxinstr=260 if thorough else 70,
-                maxpairs=6 if thorough else 4, weak=3 if thorough else 2, maxsynth=500 if thorough else 110,
+    caps = dict(maxnodes=48 if thorough else 36, maxmerge=200 if thorough else 110, maxinstr=120 if thorough else 70,
+                maxpairs=5 if thorough else 4, weak=2 if thorough else 1, maxsynth=200 if thorough else 110,
                 maxfinal=90 if thorough else 60)
     outdir = os.path.join(ctx.work, "dump")
     os.makedirs(outdir)
@@ -547,9 +548,10 @@ def run(ctx):
             return (cfg, None, str(e))
         return (cfg, r, None)
 
-    with ThreadPoolExecutor(max_workers=4) as lawpool, ThreadPoolExecutor(max_workers=6) as dumppool:
-        lawf = [lawpool.submit(law, j) for j in range(len(jobs))]
-        dumpf = [dumppool.submit(dump, i) for i in range(len(progs))]
+    # one pool of 4 for both kinds of jobs (the machine is shared)
+    with ThreadPoolExecutor(max_workers=4) as pool:
+        dumpf = [pool.submit(dump, i) for i in range(len(progs))]
+        lawf = [pool.submit(law, j) for j in range(len(jobs))]
         stats = [f.result() for f in dumpf]
         laws = [f.result() for f in lawf]
 
@@ -579,7 +581,7 @@ def run(ctx):
                         recs[kind].append(line)
     if not recs["merge"] or not recs["transfer"] or not recs["final"] or not recs["fix"]:
         raise Inconclusive("dead driver: no records (%s)" % {k: len(v) for k, v in recs.items()})
-    NB = 14 if thorough else 8
+    NB = 16 if thorough else 8
     batches = [{"merge": [], "transfer": [], "final": [], "fix": []} for _ in range(NB)]
     for kind in recs:
         order = sorted(range(len(recs[kind])), key=lambda i: -len(recs[kind][i]))
@@ -599,7 +601,7 @@ def run(ctx):
         m = re.search(r'"TRACE_RESULT", (\d+), (\d+), (\d+), (\d+), (\d+), (\d+), (\d+)', r.out)
         return vlib.read_ndjson(fp), [int(x) for x in m.groups()]
 
-    results = vlib.pmap(trace, range(NB), nproc=8)
+    results = vlib.pmap(trace, range(NB), nproc=4)
     fails = []
     tot = [0] * 7
     for bi, (fl, cnt) in enumerate(results):
